@@ -59,10 +59,11 @@ TIndex == Is("stmt") /\ Ev.q.k = "index" /\ Step
              IN /\ (IF dup THEN Ev.out.k = "err" ELSE Ok(Ev.out)) = TRUE
                 /\ tabs' = (IF dup THEN tabs ELSE [tabs EXCEPT ![i].uniq = Append(@, Ev.q.cols)])
 
-\* a statement the specification has no semantics for (fuzzing, C16): it may succeed only if it cannot change
-\* anything (flagged ro by the driver) - otherwise it must fail; either way the state stays as it is
+\* a statement the specification has no semantics for (hostile input, C16).  It must come back with a result or an
+\* error; the driver only issues it where it cannot leave a trace (autocommit: text that cannot be DML/DDL;
+\* session: the session is rolled back right after), so the state stays as it is and later reads check that.
 TOpaque == Is("stmt") /\ Ev.q.k = "opaque" /\ Step
-           /\ (IF Ev.q.ro THEN Ev.out.k \in {"rows", "err"} ELSE Ev.out.k = "err") = TRUE
+           /\ (IF Ev.s = 0 THEN Ev.out.k \in {"rows", "err"} ELSE Ev.out.k \in {"rows", "count", "ddl", "err"}) = TRUE
            /\ UNCHANGED dbvars
 
 \* ideal: first committer wins; the code never validates write sets (finding NoWriteSetValidation)
